@@ -40,6 +40,11 @@ impl DnsRecordDyn {
     pub fn set_expire(&mut self, expire_at: u64)
         ensures final(self).rec() == (DnsRecord { expires: expire_at, ..old(self).rec() }), final(self).payload() == old(self).payload(),
     { unimplemented!() }
+    // contract of the trait default set_expire_sooner (unit lifetime: never lengthens a life) plus: nothing else is touched
+    #[verifier::external_body]
+    pub fn set_expire_sooner(&mut self, expire_at: u64)
+        ensures final(self).rec() == (DnsRecord { expires: (if expire_at < old(self).rec().expires { expire_at } else { old(self).rec().expires }), ..old(self).rec() }), final(self).payload() == old(self).payload(),
+    { unimplemented!() }
     // contract of the trait default reset_ttl (unit lifetime: fresh, ttl and created taken from `other`)
     #[verifier::external_body]
     pub fn reset_ttl(&mut self, other: &DnsRecordDyn)
